@@ -48,7 +48,13 @@ def parse_tlc(out):
     return dict(generated=gen, distinct=dist, ok=ok, violated=viol)
 
 
+# The per-phase time limits only guard against hangs; they were fitted on this machine (also under a load of 100+) and are
+# scaled generously so that a slower or busier machine does not turn a healthy run into an infrastructure failure.
+TIMEOUT_SCALE = float(os.environ.get("VERIF_TIMEOUT_SCALE", "3"))
+
+
 def run_tlc(specdir, module, cfg, workers, scratch, tag, timeout, env=None, xmx="12g", extra=()):
+    timeout = timeout * TIMEOUT_SCALE
     metadir = os.path.join(scratch, "meta-" + tag)
     e = dict(os.environ)
     e.pop("JAVA_TOOL_OPTIONS", None)
@@ -197,7 +203,7 @@ def phase_drive(prop, exe, tier, seed, scripts, replay, scratch):
     t0 = time.time()
     try:
         p = subprocess.run(cmd, cwd=scratch, env=e, stdout=subprocess.PIPE, stderr=subprocess.STDOUT, text=True,
-                           timeout=prop.get("drive_timeout", {}).get(tier, 1500))
+                           timeout=prop.get("drive_timeout", {}).get(tier, 1500) * TIMEOUT_SCALE)
     except subprocess.TimeoutExpired:
         raise Infra("driver timed out")
     with open(os.path.join(scratch, "drive.log"), "w") as f:
@@ -266,7 +272,7 @@ def phase_tv(prop, specdir, trace, scratch, tier):
                                        cwd=specdir, env=e, stdout=lf, stderr=subprocess.STDOUT), lf, k, first, n, e["OUT_FILE"]))
     fails = []
     consumed = 0
-    deadline = t0 + prop.get("tv_timeout", {}).get(tier, 1800)
+    deadline = t0 + prop.get("tv_timeout", {}).get(tier, 1800) * TIMEOUT_SCALE
     for pr, lf, k, first, n, outf in procs:
         try:
             pr.wait(timeout=max(1, deadline - time.time()))
